@@ -1081,6 +1081,21 @@ pub fn generate(rng: &mut Rng, n: usize, tier: &str) -> Vec<Value> {
             v.push(json!({"bytes": b, "cuts": vec![1; b.len()]}));
         }
     }
+    // 7b. a sequence that breaks off: an ESC-prefixed key that is a proper prefix of a longer grammar, 1..3 continuing
+    //     bytes, then a byte (or a whole key) that fits no grammar -- the bytes come back as keys in their order
+    for head in [vec![27u8, 91], vec![27, 79], vec![27, 93], vec![27, 80], vec![27, 95], vec![27]] {
+        for mid in [&b"1"[..], b"12", b"1:2", b"<1", b"?25", b"200", b"4", b"G", b"+q", b"1$", b"11"] {
+            for brk in [&b"x"[..], b"\x1b[Ay", b"\xc3\xa9", b"\x1bOP", b"\x1b", b"\x00z"] {
+                let mut b = head.clone();
+                b.extend_from_slice(mid);
+                b.extend_from_slice(brk);
+                v.push(json!({"bytes": b, "cuts": []}));
+                if thorough || mid.len() == 2 {
+                    v.push(json!({"bytes": b, "cuts": vec![1; b.len()]}));
+                }
+            }
+        }
+    }
     let fixed = v.len();
     while v.len() < fixed + n {
         let k = 1 + rng.below(8) as usize;
